@@ -34,9 +34,13 @@ fn table(id: &str) -> Option<(RunFn, ReplayFn)> {
         "C04" => (props::c04::run, props::c04::replay),
         "C07" => (props::c07::run, props::c07::replay),
         "C08" => (props::c08::run, props::c08::replay),
+        "C09" => (props::c09::run, props::c09::replay),
+        "C10" => (props::c10::run, props::c10::replay),
+        "C11" => (props::c11::run, props::c11::replay),
         "C12" => (props::c12::run, props::c12::replay),
         "C13" => (props::c13::run, props::c13::replay),
         "C14" => (props::c14::run, props::c14::replay),
+        "C17" => (props::c17::run, props::c17::replay),
         "C19" => (props::c19::run, props::c19::replay),
         _ => return None,
     })
